@@ -74,6 +74,8 @@ func getKey(req *http.Request) []byte {
 // NewCache new a cache middleware
 func NewCache(s *server) elton.Handler {
 	return func(c *elton.Context) (err error) {
+		cache.VerifPoint("req.start", nil, c)
+		defer func() { cache.VerifPoint("req.end", nil, c, err) }()
 		// 不可缓存请求，直接pass至upstream
 		if requestIsPass(c.Request) {
 			setCacheStatus(c, cache.StatusPassed)
@@ -87,7 +89,9 @@ func NewCache(s *server) elton.Handler {
 
 		key := getKey(c.Request)
 		httpCache := disp.GetHTTPCache(key)
+		cache.VerifPoint("req.entry", httpCache, c, disp, key)
 		cacheStatus, httpResp := httpCache.Get()
+		cache.VerifPoint("req.got", httpCache, c, int(cacheStatus), httpResp)
 
 		cacheable := false
 		// 对于fetching类的请求，如果最终是不可缓存的，则设置hit for pass
